@@ -761,6 +761,11 @@ func (g *FnGen) loopHeader(li *loopInfo, entryPhi map[*ssa.Phi]Val) {
 		g.cur = &State{h: map[string]string{}, epoch: e}
 	} else {
 		a0 := g.heapGet(g.init, "$alloc", "Int")
+		li.allocEntry = g.heapGet(g.cur, "$alloc", "Int")
+		if li.spec != nil && li.spec.LocalOnly {
+			// the loop writes (besides the named objects) only what it allocates itself: every older object is preserved
+			a0 = li.allocEntry
+		}
 		for _, f := range mod {
 			old := g.heapGet(g.cur, f, g.famSort[f])
 			n := g.heapNew(f)
@@ -885,10 +890,14 @@ func (g *FnGen) loopFrameCheck(fam, ref string, pos token.Pos) {
 	if strings.HasPrefix(fam, "Visited_") || strings.HasPrefix(fam, "VisitedN_") || strings.HasPrefix(fam, "Ghost_") || fam == "$alloc" {
 		return
 	}
-	a0 := g.heapGet(g.init, "$alloc", "Int")
+	a00 := g.heapGet(g.init, "$alloc", "Int")
 	for _, li := range g.loops {
 		if !li.blocks[g.curBlock] {
 			continue
+		}
+		a0 := a00
+		if li.spec != nil && li.spec.LocalOnly && li.allocEntry != "" {
+			a0 = li.allocEntry
 		}
 		goal := fmt.Sprintf("(or (>= %s %s) %s)", ref, a0, g.loopFrameCond(li, fam, ref))
 		g.oblige("frame", g.ordName(fmt.Sprintf("frame/loop%d", li.ord)), goal, "write inside the loop touches only objects allocated by this function or named in the loop's assigns clause", pos)
